@@ -129,7 +129,7 @@ def bounds(tier):
     }
 
 
-N_ITER = {"quick": [2, 5], "thorough": [2, 5, 8]}
+N_ITER = {"quick": [2, 6], "thorough": [2, 5, 9]}
 QUICK_SCIPY = ["powell", "jacobian_fallback", "powell_1_iteration", "nelder_mead"]
 QUICK_ANNEALING = ["off", "2_plateaus", "3_plateaus"]
 
@@ -178,6 +178,24 @@ def to_form(df, spec, form):
         return df
     data = Data.from_dataframe(df, "joint") if _is_joint(spec) else Data.from_dataframe(df)
     return data if form == "data" else Dataset(data)
+
+
+_FULL_DATA = {}
+
+
+def single_dataset(cid, name):
+    """The harness' own dataset of one catalogue individual (subset of the 5-individual table, so that a censored
+    individual of the joint model can stand alone)."""
+    spec = MODEL_SPECS[name]
+    if name not in _FULL_DATA:
+        df = cohort_frame(sorted(INDIVIDUALS), spec.get("dim", 2), joint=_is_joint(spec), binary=spec.get("noise") == "bernoulli")
+        _FULL_DATA[name] = Data.from_dataframe(df, "joint") if _is_joint(spec) else Data.from_dataframe(df)
+    return Dataset(_FULL_DATA[name][[cid]], no_warning=True)
+
+
+def ingestible(spec, cohort):
+    """The joint reader refuses a table without any observed event (outside this property)."""
+    return not _is_joint(spec) or any(EVENTS[i][1] for i in cohort)
 
 
 _FITTED_CACHE = {}
@@ -435,7 +453,7 @@ def check_scipy(case, spec, model, cohort, keys, returned, rec, problems, info):
     methods = set()
     for cid, key, c in zip(cohort, keys, calls):
         methods.add(c["method"])
-        ds = cohort_dataset([cid], spec)
+        ds = single_dataset(cid, case["model"])
         ret = returned[key]
         # (i) the optimiser starts at the individual's initial values; (ii) the returned point is its result
         for what, x, target in (("start", c["x0"], {n: v.reshape(-1).to(torch.float64).numpy() for n, v in c["nat"].items()}),
@@ -568,6 +586,8 @@ def check_mcmc(case, spec, model, cohort, keys, returned, rec, n_burn, variables
                 problems.append((f"{site}|estimate of row i is not stored under the i-th identifier|", f"'{n}' row {i} key {key!r}"))
                 return "misaligned", False
     info["n_kept"] = n_kept
+    info["first individual"] = {"kept tau": values["tau"][:, 0, 0].tolist(), "kept attachment + regularity": loss[:, 0].tolist(),
+                                "returned tau": returned[keys[0]]["tau"].tolist()}
     if algo == "mean_posterior":
         return f"mean:kept {min(n_kept, 3)}{'+' if n_kept > 3 else ''}:{'degenerate' if degenerate else 'distinct draws'}", not degenerate
     return (f"mode:kept {min(n_kept, 3)}{'+' if n_kept > 3 else ''}:argmin {'/'.join(sorted(arg_classes))}"
@@ -584,8 +604,8 @@ def seeds_of(seed):
 def mcmc_cases(tier, seed):
     ann = list(ANNEALING) if tier == "thorough" else QUICK_ANNEALING
     for algo, n_iter, burn, a, s in itertools.product(("mean_posterior", "mode_posterior"), N_ITER[tier], BURN, ann, seeds_of(seed)):
-        if burn == "count_n-1" and n_iter == 2:
-            continue  # same as count1
+        if n_iter == 2 and burn in ("count_n-1", "frac0.8"):
+            continue  # same number of burn-in iterations as count1 / frac0.5
         yield {"algo": algo, "settings": {"n_iter": n_iter, "burn": burn, "annealing": a}, "seed": s}
 
 
@@ -618,10 +638,13 @@ def shards(tier, seed):
             continue
         out.append({"model": name, "source": source, "part": "identifiers", "tier": tier, "seed": seed})
         for cohort in COHORTS[tier]:
+            if not ingestible(spec, cohort):
+                continue
             out.append({"model": name, "source": source, "part": "mcmc", "cohort": cohort, "tier": tier, "seed": seed})
             out.append({"model": name, "source": source, "part": "scipy", "cohort": cohort, "tier": tier, "seed": seed})
     # simplest first: small cohorts, sampling before optimisation
-    out.sort(key=lambda s: (len(s.get("cohort", "xxx")), s["part"] != "mcmc"))
+    order = [m for m, _ in model_sources(tier)]
+    out.sort(key=lambda s: (len(s.get("cohort", "xxx")), order.index(s["model"]), s["source"], s["part"] != "mcmc"))
     return out
 
 
